@@ -232,14 +232,15 @@ def f_rt(script, name, bounded=False, args_quick=(), args_thorough=()):
             return [ob(f"{name}", False, (p.stderr or p.stdout)[-400:], witness={"stderr": (p.stderr or "")[-300:]},
                        bounded=bounded)]
         r = json.loads(line[-1])
-        return [ob(x["name"], x["ok"], x.get("detail"), x.get("size"), x.get("witness"), bounded=bounded,
-                   exhaustive=x.get("exhausted", True)) for x in r["results"]]
+        return [ob(x["name"], x["ok"], x.get("detail"), x.get("size"), x.get("witness"),
+                   bounded=bounded or bool(x.get("bounded")), exhaustive=x.get("exhausted", True)) for x in r["results"]]
     run.takes_tier = True
     return run
 
 
 f_compile = f_rt("compile", "compile", bounded=True, args_quick=("--bound", "2", "--time-limit", "40"),
                 args_thorough=("--bound", "2", "--time-limit", "1200"))
+f_matcher = f_rt("matcher", "matcher", args_quick=("--bound", "2"), args_thorough=("--bound", "3"))
 f_traces = f_rt("parser_traces", "parser-traces", bounded=True, args_quick=("--bound", "3"),
                 args_thorough=("--bound", "4", "--time-limit", "1500"))
 
@@ -249,17 +250,17 @@ PROPS = {
     "C02": dict(finite=[f_table_extraction, f_siblings, f_bisim, f_traces]),
     "C03": dict(finite=[f_build_once, f_corpus(["ast"], "ast")]),
     "C04": dict(finite=[]),
-    "C05": dict(finite=[f_json_identity]),
+    "C05": dict(finite=[f_json_identity, f_matcher]),
     "C06": dict(finite=[f_compile]),
     "C07": dict(finite=[f_compile]),
     "C08": dict(finite=[f_compile]),
     "C09": dict(finite=[f_compile]),
-    "C10": dict(finite=[f_compile]),
+    "C10": dict(finite=[f_compile, f_matcher]),
     "C11": dict(finite=[f_compile]),
     "C12": dict(finite=[]),
     "C13": dict(finite=[f_docstring_states]),
     "C14": dict(finite=[f_modes, f_siblings, f_corpus(["errors"], "errors"), f_traces]),
-    "C15": dict(finite=[f_compile]),
+    "C15": dict(finite=[f_compile, f_matcher]),
     "C16": dict(finite=[]),
     "C17": dict(finite=[f_corpus(["source", "ast", "pickles", "errors"], "events")]),
     "C18": dict(finite=[f_table_extraction, f_build_once, f_lookahead_targets, f_corpus(["tokens"], "tokens"), f_traces]),
